@@ -161,7 +161,12 @@ func init() {
 		"vpChoice":           vpChoice,
 		"vpAssume":           vpAssume,
 		"vpAssert":           vpAssert,
+		"vpCheck":            vpCheck,
 		"vpKnown":            vpKnown,
+		"vpClearKnown": func(fr *frame, args []value) (value, bool) {
+			fr.i.run.excuses = nil
+			return nil, true
+		},
 		"vpAnd":              vpAnd,
 		"vpOr":               vpOr,
 		"vpImplies":          vpImplies,
@@ -172,7 +177,12 @@ func init() {
 		"vpRuntimePanics":    vpRuntimePanics,
 		"vpStrEq":            vpStrEq,
 		"vpYield":            vpYield,
-		"vpNote":             func(fr *frame, args []value) (value, bool) { return nil, true },
+		"vpNote": func(fr *frame, args []value) (value, bool) {
+			if os.Getenv("VP_NOTES") != "" {
+				fmt.Fprintf(os.Stderr, "note: %s\n", toString(args[0]))
+			}
+			return nil, true
+		},
 		"vpConcretizeInt":    vpConcretizeInt,
 		"vpConcretizeString": vpConcretizeString,
 		"vpIsSymbolic":       vpIsSymbolic,
@@ -388,7 +398,14 @@ func vpAssume(fr *frame, args []value) (value, bool) {
 }
 
 func vpAssert(fr *frame, args []value) (value, bool) {
-	fr.i.run.assertion(argName(args[0]), args[1])
+	fr.i.run.assertion(argName(args[0]), args[1], false)
+	return nil, true
+}
+
+// vpCheck is an assertion after which the path goes on even when it failed:
+// for harnesses that examine many independent cases on one path.
+func vpCheck(fr *frame, args []value) (value, bool) {
+	fr.i.run.assertion(argName(args[0]), args[1], true)
 	return nil, true
 }
 
